@@ -537,7 +537,8 @@ def ev(t, val: Valuation):
             try:
                 return b[i]
             except Exception:
-                raise EvalError("index") from None
+                # containers are filled by mutation the terms do not track: treat as an uninterpreted look-up
+                return _h("sub", _key(b), _key(i))
         return _h("sub", _key(b), _key(i))
     if k == "slice":
         return ("slice", _key(ev(t[1], val)), _key(ev(t[2], val)))
